@@ -322,7 +322,9 @@ func runC03Cycle(sc *c03Scenario, tc *testClient, curLog *atomic.Pointer[hLog], 
 	var discTick int64 = -1
 	for _, e := range ev {
 		if e.Handler == "DISCONNECTED" {
-			discTick = e.Tick
+			if discTick < 0 {
+				discTick = e.Tick // the first one counts: nothing may run after it
+			}
 			continue
 		}
 		key := fmt.Sprintf("%d/%s", e.Seq, e.Handler)
